@@ -24,6 +24,9 @@ import Generated.SerdeSchema
 
   shape tokens:  ~ (null)   #i #f #b (integer / float / bool leaf)   =<pct-encoded string>
                  [ n e₁ … eₙ      { n =k₁ v₁ … =kₙ vₙ
+
+    serde_missing <Type> =<key> <shape>  →  ok <T|F>
+        does the object still load when that top-level key is deleted from the real output?
 -/
 namespace Driver.OpsSerde
 open Altrios Altrios.Proto Altrios.Serde Driver
@@ -206,6 +209,20 @@ def handlers : List (String × Handler) := [
         | some (w, []) => w == norm drvD t v
         | _ => false
       pure ("ok " ++ toString size ++ " " ++ fB rt)),
+  -- what a MISSING key becomes on load: the harness deletes one top-level key from the real
+  -- encoder's output and asks the real derived `Deserialize` (without `init`) whether it still
+  -- loads; the model answers from `missing` (`#[serde(default…)]`, implicit `None` of an Option)
+  ("serde_missing", do
+    let n ← typeName
+    let t ← schemaOf n
+    let kt ← next
+    let k := pctDecode (kt.drop 1).toString
+    let s ← shape
+    match s with
+    | .obj l =>
+      let l' := l.filter (fun kv => kv.1 != k)
+      pure ("ok " ++ fB (decSelf drvD t (.obj l')).isSome)
+    | _ => pure "err not-an-object"),
   -- table facts the harness also knows independently (from the real types)
   ("serde_table", do
     let n ← typeName
